@@ -3,7 +3,7 @@
 From Coq Require Import QArith Qcanon List String Bool.
 Import ListNotations.
 From S2 Require Import Base.Num Base.Arr Model.Expr Model.Struct Model.Rates Spec.RatesSpec
-     Proofs.NumQc Proofs.RatesProofs Proofs.BuildProofs Proofs.PositivityProofs Props.Examples.
+     Proofs.NumQc Proofs.RatesProofs Proofs.BuildProofs Proofs.PositivityProofs Proofs.PositivityTraj Model.Solvers Props.Examples.
 
 (* all faces of the orthant, all models the backend accepts: with non-negative weights (rates with
    their adjustments) and force-of-infection multipliers (C05: non-negative mixing, infectiousness
@@ -52,6 +52,26 @@ Theorem C18_euler_step_nonneg :
     fle O T (f0 O) (fadd O (nth s x0 (f0 O)) (fmul O h (nth s (get_comp_rates O m b p t x0) (f0 O)))).
 Proof. intros O T m b p t x0 s h Hb Hw Hm Hs. exact (euler_keeps_nonneg O T m b p t x0 Hb Hw Hm Hs s h). Qed.
 Print Assumptions C18_euler_step_nonneg.
+
+(* ... and along whole Euler runs of any length: if at every time and every non-negative state the weights and the
+   force-of-infection multipliers are non-negative, no flow with a source is an absolute flow, and step x exit
+   coefficient <= 1 for every compartment, then every row of the run from a non-negative initial state is
+   non-negative (the hypothesis "rows stay non-negative" of C03_euler_rows_aggregate under these conditions) *)
+Theorem C18_euler_trajectory_nonneg :
+  forall (O : NumOps) (T : NumTheory O) (m : model) (b : backend) (p : env O) (h : F O),
+    prepare_structural m = Ok b ->
+    (forall f, In f (m_flows m) -> flow_shape f) ->
+    (forall f c, In f (m_flows m) -> f_src f = Some c -> fkind_eqb (f_kind f) KAbs = false) ->
+    fle O T (f0 O) h ->
+    (forall t y f, List.length y = List.length (m_comps m) -> nonneg O T y -> In f (m_flows m) ->
+                   fle O T (f0 O) (weight_spec O p t (vclean O y) f)) ->
+    (forall t y k, List.length y = List.length (m_comps m) -> nonneg O T y -> fle O T (f0 O) (nth k (muls_of O m b p t y) (f0 O))) ->
+    (forall t y s, List.length y = List.length (m_comps m) -> nonneg O T y -> (s < List.length (m_comps m))%nat ->
+                   fle O T (fmul O h (exit_coeff O m b p t y s)) (f1 O)) ->
+    forall (k : nat) (t : F O) (y : list (F O)), List.length y = List.length (m_comps m) -> nonneg O T y ->
+      Forall (nonneg O T) (solve_fixed O (euler_step O) (fun t y => get_comp_rates O m b p t y) t h y k).
+Proof. intros O T m b p h. exact (euler_trajectory_nonneg O T m b p h). Qed.
+Print Assumptions C18_euler_trajectory_nonneg.
 
 (* non-vacuity: example model with I (both strata) empty / slightly negative: its rates are >= 0 *)
 Example C18_nonvacuous :
